@@ -8,7 +8,7 @@ fn lemma<const N: usize>(s: &mut Src) {
     let m = utf8_model(&b);
     let c = core::str::from_utf8(&b).is_ok();
     vassert!(m == c, "C12|lemma.utf8_model|the UTF-8 model differs from core::str::from_utf8");
-    vcover!(m && N > 0 && b[0] >= 0x80, "valid multi-byte");
+    vcover!(m && (N == 1 || b[0] >= 0x80), "valid (multi-byte from two bytes on)");
     vcover!(!m, "invalid");
 }
 pub fn l1(s: &mut Src) { lemma::<1>(s) }
